@@ -378,6 +378,8 @@ func genConc(r *vc.Rand, thorough bool) []string {
 		"hammer 16 "+it+" "+hwr+" ; hget h f1 hget h f2 hget h f39 ; hget h f5",
 		"hammer 16 "+it+" "+hwr+" ; hall h ; hget h f7 ; hall h",
 		"hammer 8 "+it+" app l "+x+" rem l "+x+" ; getl l ; get l ; setl l 1 "+y+" 0",
+		// an answer of GetList looked at twice while other callers remove non-last members / append
+		"hammer 8 "+it+" app l "+x+" app l "+y+" app l "+x+" rem l "+x+" rem l "+y+" ; holdcheck l ; holdcheck l ; app l "+sTok("z")+" rem l "+sTok("z")+" ; holdcheck l",
 		"hammer 6 "+it+" incr c 1 ; get c ; ttl c ; exp c 0 ; cas c i1 i2 0",
 		"hammer 6 "+it+" set a "+x+" 1000000 ; hget a f ; hall a ; ttl a ; gc ; nx a "+y+" 1000000 ; exp a 1000000",
 	)
